@@ -6,8 +6,10 @@
 //     package and consumes exactly the bytes written;
 //   - client-side packages are recovered field by field by independent
 //     decoders (every length / count field must equal what follows).
-// The fixed-layout login record is checked by C09's harness (it is only
-// reachable through Channel.Login).
+//
+// The fixed-layout login record is only reachable through Channel.Login:
+// login.go drives a plain-flow login per field configuration against a
+// scripted peer (controlled execution) and decodes the record independently.
 package main
 
 import (
@@ -24,13 +26,17 @@ import (
 )
 
 type Case struct {
-	Entry string `json:"entry"`
+	Entry string     `json:"entry,omitempty"`
+	Login *LoginCase `json:"login,omitempty"`
+	Hist  *HistCase  `json:"hist,omitempty"`
 }
 
 var h *hlib.H
 var corpus = map[string]pkgcorpus.Entry{}
 
-func kindOf(p interface{}) string { return strings.TrimPrefix(strings.TrimPrefix(fmt.Sprintf("%T", p), "*"), "tds.") }
+func kindOf(p interface{}) string {
+	return strings.TrimPrefix(strings.TrimPrefix(fmt.Sprintf("%T", p), "*"), "tds.")
+}
 
 func lenClass(e pkgcorpus.Entry) string {
 	switch {
@@ -200,6 +206,7 @@ func run(c Case) {
 	}
 	// library-written encoding
 	kind := kindOf(e.Lib)
+	rewrite(e.Name, e.Lib, e.Enc)
 	// (a) independent decoder for client-side packages
 	if desc, err := decodeClient(e.Enc); err != nil {
 		h.Violate("C06|"+kind+"|written-length-inconsistent", fmt.Sprintf("%s: independent decoder: %v (encoding %x…)", e.Name, err, head(e.Enc)), c)
@@ -296,7 +303,13 @@ func main() {
 	}
 	var rc Case
 	if h.ReplayCase(&rc) {
-		run(rc)
+		if rc.Login != nil {
+			runLogin(*rc.Login)
+		} else if rc.Hist != nil {
+			runHist(*rc.Hist)
+		} else {
+			run(rc)
+		}
 		h.ReplayReport()
 	}
 	for i, e := range entries {
@@ -308,6 +321,13 @@ func main() {
 		h.Sample(func() interface{} { return c })
 		h.Section(e.Origin, 1)
 	}
+	li := 0
+	loginLeg(&li)
+	depth := 4
+	if h.Thorough {
+		depth = 5
+	}
+	histLeg(&li, depth)
 	h.R.Extra["corpus_entries"] = len(entries)
 	h.Done()
 }
